@@ -20,6 +20,7 @@ type Scenario struct {
 	Workers  int      `json:"workers,omitempty"`
 	QueueCap int      `json:"queue_cap,omitempty"`
 	CLIFlags []string `json:"cli_flags,omitempty"`
+	CLIPaths []string `json:"cli_paths,omitempty"` // relative to the scratch tree ("." if empty)
 
 	// C13
 	History []Op `json:"history,omitempty"`
@@ -52,6 +53,7 @@ type Input struct {
 	Src      []byte `json:"src"`
 	Version  string `json:"version"` // "" = nil (package default)
 	Callback bool   `json:"callback"`
+	Path     string `json:"path,omitempty"` // kind C: file path relative to the scratch tree
 }
 
 type Task struct {
